@@ -67,6 +67,18 @@ theorem c17_locked_refuses (d : Dir) (hl : d.holders > 0) :
     | error e => exact ⟨e, rfl, rfl⟩
     | ok u => simp [Dir.locked, hl]
 
+/-- with the directory lock taken only after recovery (seeded change C17-7) a second open of a live,
+    compatible directory is still refused with `Locked` – but it has modified the directory the live
+    instance is working in -/
+theorem c17_late_lock_spoils_live_directory (d : Dir) (b : Bytes) (hm : d.marker = some b)
+    (hv : checkVersion b = .ok ()) (hl : d.holders > 0) :
+    (openDbLateLock d).2 = .error .locked ∧ (openDbLateLock d).1.mutations = d.mutations + 1 ∧
+      (openDb d).1 = d := by
+  refine ⟨?_, ?_, ?_⟩
+  · simp [openDbLateLock, hm, hv, Dir.locked, hl]
+  · simp [openDbLateLock, hm, hv, Dir.locked, hl]
+  · simp [openDb, hm, hv, Dir.locked, hl]
+
 /-- **The lock is held exactly while a handle is alive**, over every sequence of
     open / clone / drop: `holders` is the number of live handles, never negative, and an open
     succeeds only from `holders = 0`. -/
